@@ -61,7 +61,7 @@ func init() {
 		Stages: []stage{tiny, {Name: "start", Harness: "hand", Test: "TestStartValidation", Mode: "rapid", Quick: 10000, Thorough: 200000}, two(3000, 100000), hand(30000, 1200000)}}
 	plans["C07"] = plan{Level: "exploration", Assume: append([]string{"game_id / created_at are copied at the fork; updated_at is ignored"}, handAssume...),
 		Rule:   "cases = generated hands advanced in lockstep on four replicas (in-memory; every call through table.NativeBackend; rebuilt from its own JSON at drawn cut points: never/always/random; an independently started second game); states compared as JSON after every operation, error results compared, backend input checked unmodified; non-trivial = hand with >= 10 compared operations that settled after JSON hops",
-		Stages: []stage{two(1500, 50000), hand(10000, 300000)}}
+		Stages: []stage{two(1500, 50000), hand(16000, 400000)}}
 	plans["C10"] = plan{Level: "exploration", Assume: handAssume,
 		Rule:   "cases = (a) engine hands with themed decks, every seat checked on flop, turn, river and at close against the harness' own enumeration of admissible selections (public evaluator + independent reference ranker); (b) direct calls of GetAllPossibleCombinations on drawn hole/board sets; non-trivial = >= 4 board cards and best category >= pair; counters.evaluations_checked = player evaluations checked",
 		Stages: []stage{{Name: "direct", Harness: "cards", Test: "TestC10Direct", Mode: "rapid", Quick: 60000, Thorough: 1500000}, two(2000, 60000), hand(16000, 500000)}}
